@@ -935,28 +935,39 @@ func rule118(r *core.Run) {
 				rv = ex
 			}
 		}
-		assume := map[ssa.Value]bool{}
-		core.Instrs(fn, func(in ssa.Instruction) {
-			b, ok := in.(*ssa.BinOp)
-			if !ok || (b.Op != token.EQL && b.Op != token.NEQ) {
-				return
-			}
-			if (b.X == rv && core.IsNilConst(b.Y)) || (b.Y == rv && core.IsNilConst(b.X)) {
-				assume[b] = b.Op == token.NEQ
-			}
-		})
 		n++
+		// every condition the wrapper depends on is a nil test: of the range itself ("there is one") or of an
+		// error (an earlier step failed). Anything else — a comparison of Start, Length, size — makes the
+		// wrapper depend on WHICH range it is.
 		bad := ""
-		for ret, ev := range returnedErrors(fn) {
-			if ev == nil || !definitelyNil(r, core.BlockLocalLoad(ev)) {
+		hasRangeTest := false
+		for _, ec := range expandedConds(limit) {
+			if ec.merged {
 				continue
 			}
-			if core.ReachableFromEntryAssumingAvoiding(ret, assume, func(x ssa.Instruction) bool { return x == ssa.Instruction(limit) }) {
-				bad = pos(r, ret)
+			cd := core.CondOf(ec.cond)
+			isNilTest := (cd.Op == token.EQL || cd.Op == token.NEQ) && (core.IsNilConst(cd.X) || core.IsNilConst(cd.Y))
+			if !isNilTest {
+				// only conditions on the range itself matter
+				if rv != nil && r.P.SliceOf(ec.cond, core.SliceOpts{Depth: -1}).HasValue(rv) {
+					if ci, ok := ec.cond.(ssa.Instruction); ok {
+						bad = pos(r, ci)
+					} else {
+						bad = "?"
+					}
+				}
+				continue
+			}
+			other := cd.X
+			if core.IsNilConst(cd.X) {
+				other = cd.Y
+			}
+			if other == rv {
+				hasRangeTest = true
 			}
 		}
-		r.Check(bad == "" && len(assume) > 0 && rv != nil, "R11.8", key(name, "every range gets the limiting wrapper"), pos(r, limit), "with a range present, success only through limitReadCloser",
-			"with a range present the method can still return successfully (at "+bad+") without wrapping the file in the length-limiting reader: some ranges are answered with the whole remaining file under the headers of the short range")
+		r.Check(bad == "" && hasRangeTest && rv != nil, "R11.8", key(name, "every range gets the limiting wrapper"), pos(r, limit), "limitReadCloser under `range != nil` (and error checks) only",
+			"the length-limiting wrapper is applied only if a further condition on the range holds (test at "+bad+"): some ranges are answered with the whole remaining file under the headers of the short range")
 	}
 	if n < 2 {
 		r.Unresolved("R11.8: %d fs GetObject methods examined (expected 2)", n)
